@@ -263,15 +263,21 @@ def scripted_cases(draw):
             'midchar': draw(st.booleans()),
             # the REPL takes longer over every command than the spawn object's own default timeout allows; the
             # timeout given to run_command() is what counts
-            'slow': draw(st.integers(0, 3)) == 0}
+            'slow': draw(st.integers(0, 3)) == 0,
+            # the scripted REPL leaves its terminal as it found it (canonical mode, ECHO on) instead of switching to raw
+            # mode: REPLWrapper itself has to turn the echo off (it is given an existing spawn and no prompt change)
+            'cooked': draw(st.integers(0, 3)) == 0}
 
 
 def check_scripted(case, col=None):
     from ..engines import peers
     P, C = replwrap.PEXPECT_PROMPT, replwrap.PEXPECT_CONTINUATION_PROMPT
+    cooked = bool(case.get('cooked'))
     actions = [['w', P.encode('utf-8').hex()]]
     for lines in case['cmds']:
         for j, ln in enumerate(lines):
+            if cooked:
+                ln['out'] = ln['out'].replace('\r\n', ' ')       # (the terminal would add a CR of its own)
             full = ln['out'] + (P if j == len(lines) - 1 else C)
             actions.append(['recuntil', b'\n'.hex()])
             if case.get('slow') and j == len(lines) - 1:
@@ -291,7 +297,7 @@ def check_scripted(case, col=None):
                     actions.append(['s', 0.012])
                     prev = c
     actions.append(['recuntil', b'\x00never\x00'.hex()])
-    child, ps = peers.pty_peer(actions, raw=True, record=False, wait_ready=False, encoding='utf-8', timeout=20,
+    child, ps = peers.pty_peer(actions, raw=not cooked, record=False, wait_ready=False, encoding='utf-8', timeout=20,
                                maxread=case['maxread'])
     loop = asyncio.new_event_loop() if case['mode'] == 'async' else None
     split_inside = False
